@@ -196,6 +196,27 @@ func (fr *frame) newIterator(st *PState, v *ViewVal, pfx T) *IterVal {
 	st.Assume(App(SBool, ">=", n, IntLit(0)))
 	it := &IterVal{View: v, Pfx: pfx, Seq: seq, N: n}
 	it.IdxID = st.NewCell(IntLit(0))
+	// ghost sequence: exactly the keys of the view that start with pfx and are present now, each once
+	ex := fr.ex
+	ex.fresh++
+	q := fmt.Sprintf("qi_%d", ex.fresh)
+	q2 := fmt.Sprintf("qj_%d", ex.fresh)
+	state := Select(st.kv, v.Cell, SState)
+	kq := Select(seq, T{S: q, Sort: SInt}, SBytes)
+	present := Not(Eq(stGet(state, v.Store, ex.fullKey(v, kq)), bnilT))
+	st.Assume(mk(SBool, "(forall ((%s Int)) (! (=> (and (<= 0 %s) (< %s %s)) (and %s (bprefix %s %s) (not (= %s bnil)))) :pattern ((select %s %s))))",
+		q, q, q, n.S, present.S, pfx.S, kq.S, kq.S, seq.S, q))
+	st.Assume(mk(SBool, "(forall ((%s Int) (%s Int)) (! (=> (and (<= 0 %s) (< %s %s) (< %s %s)) (not (= (select %s %s) (select %s %s)))) :pattern ((select %s %s) (select %s %s))))",
+		q, q2, q, q, q2, q2, n.S, seq.S, q, seq.S, q2, seq.S, q, seq.S, q2))
+	// completeness: every present key with the prefix occurs in the sequence (Skolem position function)
+	pos := fmt.Sprintf("itpos_%d", ex.fresh)
+	ex.declFun(pos, []string{SBytes}, SInt)
+	kb := T{S: "qk_" + fmt.Sprint(ex.fresh), Sort: SBytes}
+	presentK := Not(Eq(stGet(state, v.Store, ex.fullKey(v, kb)), bnilT))
+	st.Assume(mk(SBool, "(forall ((%s Bytes)) (! (=> (and %s (bprefix %s %s)) (and (<= 0 (%s %s)) (< (%s %s) %s) (= (select %s (%s %s)) %s))) :pattern ((%s %s))))",
+		kb.S, presentK.S, pfx.S, kb.S, pos, kb.S, pos, kb.S, n.S, seq.S, pos, kb.S, kb.S, pos, kb.S))
+	it.Pos = pos
+	ex.Assumed["iterator model: KVStorePrefixIterator enumerates exactly the present keys with the byte prefix, each once (snapshot at creation)"] = true
 	return it
 }
 
